@@ -36,6 +36,11 @@ LEVEL_TEXT = {
            "slots: one call at a time (busy and called-already refusals write nothing and change nothing, a free connection gets "
            "exactly one message with the call mode's flags), stream ownership after send and after every kind of reply, success "
            "exactly for a reply without error member; reduced: one thread, the error-name mapping is outside",
+    "C15": "SMT-decided, on all runs of the accept loop of varlink::listen with at most 8 / 11 (thorough 12 / 13) accept calls: a "
+           "timeout error only after idle_timeout of waits that timed out and with a busy count of 0, never with idle_timeout 0 "
+           "and a stop flag; Ok only when the stop flag was just read true, and at once; accept errors returned; accepted "
+           "connections handed to the pool; an idle server does time out; reduced: draining (pool drop joins) and socket "
+           "removal are outside",
     "C19": "SMT-decided, on all paths of each step function's MIR (test01..test11, end) and of the client table: the success reply "
            "is produced only for the canonical request of a client that is known and in that step, and is produced for it; "
            "reduced: value comparison and parameter deserialization are free booleans, Start and time-outs are outside",
@@ -52,8 +57,13 @@ LEVEL_TEXT = {
 }
 
 
-ENGINE_OF = {"C11": "smt-grammar", "C19": "smt-mir", "C07": "smt-mir"}
+ENGINE_OF = {"C11": "smt-grammar", "C19": "smt-mir", "C07": "smt-mir", "C15": "smt-mir"}
 TECHNIQUE = {
+    "C15": "z3 (SMT) over a path-by-path symbolic execution of the rustc MIR of varlink::listen (dumped from /repo on every run) with "
+           "the environment as nondeterministic stubs: every accept yields a connection / a timeout / an error, every read of the "
+           "stop flag and the busy count an arbitrary value, time = the sum of the waits that timed out, idle_timeout symbolic; "
+           "bounded by the number of accept calls per run; per path `path condition and not property` must be unsat; confirmed "
+           "natively by timed runs of the real listen",
     "C07": "z3 (SMT) over a path-by-path symbolic execution of the rustc MIR of MethodCall::send and MethodCall::recv (dumped from "
            "/repo on every run) from an arbitrary state of the connection's and the call's stream slots, callees replaced by "
            "contract models; per path the query `path condition and not property` must be unsat; a model is a slot state + call "
